@@ -219,6 +219,7 @@ func gen(t *rapid.T) Case {
 	g := &genState{t: t, c: &c}
 	c.Special = chance(t, "special", 35)
 	c.Chunked = chance(t, "chunked", 30)
+	c.LogVia = pick(t, "logvia", "", 4, "json", 1, "logrus", 2, "logrus-json", 1)
 
 	// ---- registries with credentials
 	nReg := between(t, "nreg", 2, 3)
